@@ -4,7 +4,7 @@ CONSTANTS
   Keyspaces = {"ks1", "Ks2", "nope"}
   Valid = {"ks1", "Ks2"}
   Attr <- MCAttr
-  MaxOps = 5
+  MaxOps = 7
   StoreUnderReadLock = TRUE
 INVARIANTS ForwardInClientKs OnlyValidKs
 PROPERTIES FailedUseKeepsKs Isolation
